@@ -105,12 +105,15 @@ def handleBlock (is : List Instr) (out : Sexp) : CaseResult :=
         let aligned := implN == is.length
         let relOf (es : List (Nat × Nat)) : List Nat := sortNat (es.map fun (a, b) => a * (is.length + 1) + b).eraseDups
         let edgesAgree := !aligned || relOf implEdges == relOf g.edges
-        let pathsAgree := !aligned || (ks.zip pathsS).all fun (k, ps) =>
+        -- of `path_fold`'s result vector only what `gate_depth` needs enters the verdict: its maximum, with
+        -- the empty vector counting as 0 (order, multiplicity, `[]` vs `[initial_value]` on an empty graph
+        -- are not constrained by the property); this needs no node alignment
+        let pathsAgree := (ks.zip pathsS).all fun (k, ps) =>
           match ps with
           | .list (.atom "pv" :: xs) =>
-            match xs.mapM Sexp.asNat?, pathFold g (countStep g k) 0 fuel with
-            | some impl, some model => sortNat model.eraseDups == impl
-            | _, _ => false
+            match xs.mapM Sexp.asNat? with
+            | some impl => some (maxList impl) == md k
+            | none => false
           | _ => false
         let agree := edgesAgree && depthAgree && pathsAgree && seqAgree
         -- spec on EVERY depth the implementation returned (all call orders): proved checker
